@@ -300,4 +300,19 @@ theorem tbl_quiescent_resolves : ∀ (s ev : Status) (rem : Bool) (oc : Outcome)
       (wfOnTaskEvent s ev rem false oc).all? (fun s' => resting s' || oc == .incomplete) = true := by
   decide +kernel
 
+/-! ### C15: the workflow machine accepts what the task machine produces -/
+
+/-- the statuses a workflow can be in (every status the workflow machine or a request can set) -/
+def wfReachable : Status → Bool
+  | .unset | .requested | .scheduled | .delayed | .running | .pausing | .paused | .resuming
+  | .canceling | .canceled | .succeeded | .failed => true
+  | _ => false
+
+/-- **C15**: in every status a workflow can be in, the workflow machine accepts every task status
+    the task machine can produce (with or without remediation, other active tasks, any outcome
+    context): reporting a task never raises `InvalidEvent` or `InvalidWorkflowStatusTransition` -/
+theorem C15_task_events_accepted : ∀ (s ev : Status) (rem act : Bool) (oc : Outcome),
+    wfReachable s = true → hasTaskEvent ev = true → (wfOnTaskEvent s ev rem act oc).isOk = true := by
+  decide +kernel
+
 end Orq
